@@ -50,7 +50,7 @@ ValuesModelOk(e) ==
     CmpReflexive(U) /\ CmpAntisymmetric(U) /\ CmpRanked(U) /\ \A v \in U : WFValue(v)
 
 (* C16 *)
-SatisfyOk(e) == e.obs = (IF Sat(e.crit, e.doc) THEN "true" ELSE "false")
+SatisfyOk(e) == e.obs = (IF Sat(Desugar(e.crit), e.doc) THEN "true" ELSE "false")
 
 (* C17 *)
 RangeOf(r) == IF r[1] = <<"full">> THEN FullRange
@@ -109,14 +109,14 @@ PlanOk(e) ==
           LET f == e.ranges[i][1]
               r == RangeOf(e.ranges[i][2])
           IN \A k \in DOMAIN e.docs :
-                Sat(e.crit, e.docs[k]) =>
+                Sat(Desugar(e.crit), e.docs[k]) =>
                    /\ InRange(Get(e.docs[k], f), r)
                    /\ e.ranges[i][3] = 0
 
 \* advisory (never a verdict): the planner model of CloverPlan.tla agrees with the real visitors
 PlanModelOk(e) ==
     LET F == {e.indexed[i] : i \in DOMAIN e.indexed}
-        p == Plan(e.crit, F)
+        p == Plan(Desugar(e.crit), F)
     IN /\ e.selected = p.sel
        /\ IF IsNoRange(p.range) THEN e.ranges = <<>>
           ELSE /\ Len(e.ranges) = 1
